@@ -76,6 +76,13 @@ RULE = ("Hypothesis RuleBasedStateMachine (20/30 steps) parameterised by the gro
         "member tuple, parents, slits and counters are read back and compared with the model. finish() adds a "
         "deterministic sweep: each attribute through the scalar and the sequence branch of its setter plus one wrong length, "
         "each rejected kind once, and list-assignment of the members + caller edit + add + broadcast + observe + iteration. "
+        "Interference: a `switch` rule directs the following rules to a SECOND group of the same class, built with the "
+        "same constructor form (incl. `cls()` with every argument left to its default) and its own generated members "
+        "(members are built with omitted arguments where a default is meant); the invariant checks BOTH groups against their "
+        "models after every rule, that they share no member, that no pipeline object is connected to two members, and that "
+        "lists returned by the getters of a group before it was left are unchanged when it is used again; finish() always "
+        "adds: second group used (add, connect_pipelines with defaults, broadcasts, rename, observe), first group re-checked "
+        "and used again, the same calls twice in a row. "
         "Non-trivial: a history in which a sequence with at least two different values was assigned element-wise to a "
         "group of size >= 2 and read back, and at least one wrong-length assignment was attempted after a successful "
         "assignment; for BolometerCamera (no broadcast attributes): size >= 2 at an observe(), a by-name lookup and a "
@@ -237,9 +244,14 @@ def member_args():
 def hist_params(draw):
     gname = draw(st.sampled_from(GROUP_NAMES))
     n0 = draw(st.sampled_from([0, 0, 1, 2, 2, 3, 3, 4]))
+    # "bare": the group is built with every argument left to its default (`cls()`), members are added afterwards
     ctor = {"parent": draw(st.sampled_from([True, True, True, False])), "positional": draw(st.booleans()),
-            "container": draw(st.sampled_from(["list", "tuple"])), "transform": draw(st.booleans())}
-    return {"group": gname, "init": [draw(member_args()) for _ in range(n0)], "excluded": excluded_for(gname), "ctor": ctor}
+            "container": draw(st.sampled_from(["list", "tuple"])), "transform": draw(st.booleans()),
+            "bare": draw(st.sampled_from([False, False, True]))}
+    # a second group of the same class, built the same way (same defaults left to default) with its own members
+    second = {"init": [draw(member_args()) for _ in range(draw(st.sampled_from([0, 1, 2, 3])))]}
+    return {"group": gname, "init": [draw(member_args()) for _ in range(n0)], "excluded": excluded_for(gname), "ctor": ctor,
+            "second": second}
 
 
 def _assign_args(kinds):
@@ -280,7 +292,15 @@ class Hist:
         self.gname = params["group"]
         self.init = params["init"]
         self.excluded = set(params.get("excluded", []))
-        self.ctor = dict({"parent": True, "positional": False, "container": "list", "transform": False}, **params.get("ctor", {}))
+        self.ctor = dict({"parent": True, "positional": False, "container": "list", "transform": False, "bare": False},
+                         **params.get("ctor", {}))
+        self.second = params.get("second", {"init": []})
+        self.built = False
+        self.sides = [None, None]      # saved (group, members, mm, slits) of the side that is not current; side 1 = second group
+        self.cur = 0
+        self.b_ops = 0                 # state-changing rules applied to the second group
+        self.a_ops = 0
+        self.held = [None, None]       # results returned by the getters of a side when it was left: must not change later
         self.cls, self.mtype = GROUPS[self.gname]
         self.is_camera = self.gname == "BolometerCamera"
         self.primary = BolometerFoil if self.is_camera else self.mtype
@@ -300,9 +320,9 @@ class Hist:
 
     # ---------------------------------------------------------------- construction
     def _ensure(self):
-        if self.group is not None:
+        if self.built:
             return
-        ctx = self.ctx
+        self.built = True
         self.props = class_properties(self.cls)
         self.attrs = []
         names = set(self.props) | set(DOCUMENTED[self.gname])
@@ -316,29 +336,102 @@ class Hist:
         if any(x.startswith("member:") for x in self.excluded):
             self.lab.add("excluded_known")
         self.world = World()
-        c = self.ctor
+        self._build_group(self.init, "group")
+
+    def _build_group(self, init, gname):
+        """constructs a group with its initial members into the *current* side (self.group / members / mm / slits)."""
+        ctx, c = self.ctx, self.ctor
+        self.group, self.members, self.mm, self.slits = None, [], [], {}
         parent = self.world if (c["parent"] or self.is_camera) else None     # (a 2-D IRVB member really observes: needs a World)
         tr = translate(0.5, -0.25, 1.0) if c["transform"] else None
         with ctx.cut("construct"):
-            if self.is_camera:
-                self.group = self.cls(None, parent, tr, "camera") if c["positional"] else self.cls(parent=parent, transform=tr, name="camera")
-                members = [self._new_member(a, accepted=True) for a in self.init]
+            if c["bare"]:
+                g = self.cls()
+                if self.is_camera:
+                    g.parent = self.world
+                self.group = g
+                members = [self._new_member(a, accepted=True) for a in init]
+                snaps = [self._snapshot(m) for m in members]
+                for m in members:
+                    g.add_foil_detector(m) if self.is_camera else g.add_observer(m)
+                self.lab.add("ctor:bare")
+            elif self.is_camera:
+                self.group = self.cls(None, parent, tr, gname) if c["positional"] else self.cls(parent=parent, transform=tr, name=gname)
+                members = [self._new_member(a, accepted=True) for a in init]
                 snaps = [self._snapshot(m) for m in members]
                 for m in members:
                     self.group.add_foil_detector(m)
             else:
-                members = [self._new_member(a, accepted=True) for a in self.init]
+                members = [self._new_member(a, accepted=True) for a in init]
                 snaps = [self._snapshot(m) for m in members]
                 given = list(members) if c["container"] == "list" else tuple(members)
-                self.group = self.cls(parent, tr, "group", given) if c["positional"] else \
-                    self.cls(parent=parent, transform=tr, name="group", observers=given)
+                self.group = self.cls(parent, tr, gname, given) if c["positional"] else \
+                    self.cls(parent=parent, transform=tr, name=gname, observers=given)
                 if isinstance(given, list):        # the caller edits its own list afterwards
                     given.reverse()
                     del given[1:]
                 self.lab.add("ep:ctor_observers:" + c["container"])
-        self.lab.add("ctor:" + ("positional" if c["positional"] else "keyword") + ("" if parent is not None else ":no_parent")
-                     + (":transform" if c["transform"] else ""))
+        if not c["bare"]:
+            self.lab.add("ctor:" + ("positional" if c["positional"] else "keyword") + ("" if parent is not None else ":no_parent")
+                         + (":transform" if c["transform"] else ""))
         self.members, self.mm = list(members), snaps
+
+    # ---------------------------------------------------------------- two groups of the same class alive at once
+    def _swap(self):
+        """makes the other side current (no checks, no construction)."""
+        self.sides[self.cur] = (self.group, self.members, self.mm, self.slits)
+        self.cur = 1 - self.cur
+        self.group, self.members, self.mm, self.slits = self.sides[self.cur]
+
+    def _hold(self):
+        """what the getters of the current side return now - these lists belong to the caller and must not change later."""
+        out = {}
+        with self.ctx.cut("getter"):
+            for attr in self.attrs:
+                lst = getattr(self.group, attr)
+                out[attr] = (lst, list(lst))
+            mem = self.group.foil_detectors if self.is_camera else self.group.observers
+            out["<members>"] = (mem, list(mem))
+        return out
+
+    def _check_held(self):
+        held = self.held[self.cur]
+        if held is None:
+            return
+        for attr, (lst, copy) in held.items():
+            same = len(lst) == len(copy) and all((a is b) or (isinstance(a, (int, float, str, bool)) and a == b) or
+                                                 (isinstance(a, (list, tuple)) and list(a) == list(b)) for a, b in zip(lst, copy))
+            self.ctx.check(same, "repeat:%s.%s" % (self.gname, attr),
+                           lambda: "the result group.%s returned earlier (%s) was modified by later calls: now %s"
+                           % (attr, self._show(copy), self._show(lst)))
+        self.held[self.cur] = None
+        self.lab.add("repeat:held_results")
+
+    def _used(self):
+        """a state-changing rule is about to be applied to the current group"""
+        if self.cur == 1:
+            self.b_ops += 1
+        else:
+            self.a_ops += 1
+            if self.b_ops:
+                self.lab.add("interference:first_group_used_after_second")
+
+    def do_switch(self, a):
+        """the following rules go to the other group of the same class; it is built (same constructor form, its own generated
+        members) when first needed.  The invariant checks BOTH groups after every rule."""
+        self._ensure()
+        first_use_of_a = self.cur == 0 and self.a_ops == 0
+        self.held[self.cur] = self._hold()
+        if self.sides[1 - self.cur] is None and self.cur == 0:
+            self.sides[0] = (self.group, self.members, self.mm, self.slits)
+            self.cur = 1
+            self._build_group(self.second.get("init", []), "group B")
+            self.lab.add("second:built")
+            if first_use_of_a:
+                self.lab.add("second:built_before_first_use")
+        else:
+            self._swap()
+        self._check_held()
 
     def close(self):
         try:
@@ -346,8 +439,14 @@ class Hist:
                 self.group.parent = None
         except Exception:  # noqa
             pass
+        for side in self.sides:
+            try:
+                if side is not None and side[0] is not None:
+                    side[0].parent = None
+            except Exception:  # noqa
+                pass
         self.group = self.world = None
-        self.members, self.mm, self.pstate, self.slits = [], [], {}, {}
+        self.members, self.mm, self.pstate, self.slits, self.sides, self.held = [], [], {}, {}, [None, None], [None, None]
 
     def _new_pipelines(self, u, k):
         out = []
@@ -421,11 +520,23 @@ class Hist:
             for p in m.pipelines:
                 p.display_progress = False
             return m
+        # arguments that are "not given" are really omitted, so that the defaults of the signatures are what is used
+        kw = {}
+        if pipes is not None:
+            kw["pipelines"] = pipes
+        else:
+            self.lab.add("member:default_pipelines")
+        if name is not None:
+            kw["name"] = name
         if kind == "targettedpixel":
-            return C([Sphere() for _ in range(1 + k % 2)], pipelines=pipes, name=name)
+            return C([Sphere() for _ in range(1 + k % 2)], **kw)
         if kind in ("spec_sightline", "spec_fibreoptic"):
-            return C(self._point(u), self._direction(u, k), pipelines=pipes, name=name)
-        return C(pipelines=pipes, name=name)
+            if k == 4:
+                return C(**kw)                                   # origin / direction left to their defaults
+            if k % 2:
+                return C(origin=self._point(u), direction=self._direction(u, k), **kw)
+            return C(self._point(u), self._direction(u, k), **kw)
+        return C(**kw)
 
     def _read_member(self, m, attr):
         return getattr(m, SPECS[attr].member_attr or attr)
@@ -496,6 +607,31 @@ class Hist:
 
     def invariant(self):
         self._ensure()
+        self._check_side()
+        if self.sides[1 - self.cur] is not None:
+            other = self.sides[1 - self.cur]
+            self._swap()
+            try:
+                self._check_side()
+            finally:
+                self._swap()
+            ctx = self.ctx
+            both = list(self.members) + list(other[1])
+            ctx.check(len({id(m) for m in both}) == len(both), "interference:members", "the two groups share a member object")
+            if self.b_ops:
+                self.lab.add("interference")
+        # no pipeline object is connected to two members (none is ever assigned twice by this check) - in either group
+        seen = {}
+        for side in ([(self.group, self.members, self.mm, self.slits)] + [x for x in [self.sides[1 - self.cur]] if x is not None]):
+            for j, m in enumerate(side[1]):
+                with self.ctx.cut("member-read:pipelines"):
+                    pl = tuple(m.pipelines)
+                for p in pl:
+                    self.ctx.check(id(p) not in seen, "interference:pipelines",
+                                   lambda: "pipeline %r is connected to member %r of %r and to %r" % (p, m.name, side[0].name, seen[id(p)]))
+                    seen[id(p)] = (m.name, side[0].name)
+
+    def _check_side(self):
         ctx, g, n = self.ctx, self.group, len(self.members)
         self.sizes.add(n)
         real = self._group_members()
@@ -536,6 +672,9 @@ class Hist:
     def finish(self):
         self._ensure()
         ctx = self.ctx
+        if self.cur == 1:
+            self.do_switch(0)
+            self.invariant()
         # coverage sweep: every broadcast attribute of this class gets at least one valid assignment through each branch of
         # its setter (scalar, sequence) and one wrong-length assignment per history (with arguments that are a fixed
         # function of the attribute index), every rejected kind is offered once, and the member list is once assigned as a
@@ -559,6 +698,7 @@ class Hist:
                 self.invariant()
         if "tail" not in self.lab:
             self._tail()
+        self._interference_tail()
         ctx.label("class:" + self.gname)
         ctx.label(*sorted(self.lab))
         for a in sorted({a for a, _ in self.sets}):
@@ -591,6 +731,43 @@ class Hist:
         self.invariant()
         self.do_index({"mode": "iter", "i": 0, "s": [None, None, None]})
         self.lab.add("tail")
+
+    def _interference_tail(self):
+        """second group of the same class (built the same way, own members): add, connect_pipelines with defaults, broadcasts,
+        rename, observe on it - the first group is re-checked after each step, then used again; the same calls twice in a row."""
+        zeros = {"k": [0] * 8}
+        self.do_switch(0)
+        self.invariant()
+        if len(self.members) < 5:
+            self.do_member_add(dict(self._SYNTH_MEMBER, k=0, name=6))     # k=0: pipelines left to the observer's default
+            self.invariant()
+        if not self.is_camera:
+            self.do_connect(zeros)
+            self.invariant()
+            for i, attr in enumerate(self.attrs[:3] + [x for x in ("display_progress", "accumulate", "quiet") if x in self.attrs]):
+                self.do_assign({"a": self.attrs.index(attr), "kind": "scalar", "u": [0.41 + 0.07 * i] * 8, "k": [5] * 8})
+                self.invariant()
+        if self.members:
+            self.do_rename([0, 6])
+            self.invariant()
+        self.do_observe(0)
+        self.invariant()
+        self.do_switch(0)
+        self.invariant()
+        # the same call twice in a row on the first group
+        self.do_observe(0)
+        self.invariant()
+        self.do_observe(0)
+        self.invariant()
+        if not self.is_camera:
+            self.do_connect(zeros)
+            self.invariant()
+            self.do_connect(zeros)
+            self.invariant()
+        for _ in range(2):
+            self.do_index({"mode": "name", "i": 6, "s": [None, None, None]})
+            self.do_index({"mode": "int", "i": 0, "s": [None, None, None]})
+        self.lab.add("repeat:same_call_twice")
 
     # ---------------------------------------------------------------- value construction
     def _random_value(self, attr, u, k, mms):
@@ -825,6 +1002,7 @@ class Hist:
 
     def do_member_add(self, a):
         self._ensure()
+        self._used()
         ctx = self.ctx
         if len(self.members) >= 5:
             return
@@ -877,6 +1055,7 @@ class Hist:
 
     def do_assign(self, a):
         self._ensure()
+        self._used()
         if not self.attrs:
             return
         ctx, g, n = self.ctx, self.group, len(self.members)
@@ -966,6 +1145,7 @@ class Hist:
 
     def do_rename(self, a):
         self._ensure()
+        self._used()
         if not self.members:
             return
         j = a[0] % len(self.members)
@@ -976,6 +1156,7 @@ class Hist:
 
     def do_replace(self, a):
         self._ensure()
+        self._used()
         ctx, g, n = self.ctx, self.group, len(self.members)
         order = []
         for i in a["perm"]:
@@ -1074,6 +1255,7 @@ class Hist:
 
     def do_observe(self, a):
         self._ensure()
+        self._used()
         ctx, n = self.ctx, len(self.members)
         with ctx.cut("observe"):
             r = self.group.observe()
@@ -1111,6 +1293,7 @@ class Hist:
         """connect_pipelines(): every member gets its own new pipelines of the given classes (documented); the model takes the
         new pipeline objects from the members, the invariant then checks group.pipelines / display_progress / accumulate."""
         self._ensure()
+        self._used()
         if self.is_camera or "pipelines" not in self.attrs:
             return
         ctx, g, n = self.ctx, self.group, len(self.members)
@@ -1179,6 +1362,7 @@ Hist.OPS = {
                                                            st.one_of(st.none(), st.integers(-3, 3)))}),
     "observe": lambda: st.just(0),
     "reread": lambda: st.just(0),
+    "switch": lambda: st.just(0),
     "connect": lambda: st.fixed_dictionaries({"k": _ks}),
 }
 for _alias, _target in (("assign_b", "assign"), ("assign_c", "assign"), ("assign_d", "assign"),
@@ -1217,7 +1401,11 @@ def _required():
             "hist:ep:add_observer", "hist:ep:add_sight_line", "hist:ep:add_foil_detector", "hist:ep:ctor_observers:list",
             "hist:ep:ctor_observers:tuple", "hist:ep:ctor_wrong", "hist:ep:observers_set:list", "hist:ep:observers_set:tuple",
             "hist:ep:sight_lines_set:list", "hist:ep:sight_lines_set:tuple", "hist:ep:foil_detectors_set:list",
-            "hist:ep:connect_pipelines:base", "hist:ep:connect_pipelines:spectroscopic"]
+            "hist:ep:connect_pipelines:base", "hist:ep:connect_pipelines:spectroscopic",
+            # two groups of the same class alive at once / repeated calls
+            "hist:second:built", "hist:second:built_before_first_use", "hist:interference",
+            "hist:interference:first_group_used_after_second", "hist:repeat:held_results", "hist:repeat:same_call_twice", "hist:ctor:bare",
+            "hist:member:default_pipelines"]
     if "member:irvb" not in excluded_for("BolometerCamera"):
         out.append("hist:member:irvb")
     return out
@@ -1226,5 +1414,5 @@ def _required():
 REQUIRED_LABELS = _required()
 
 SUBCHECKS = {
-    "hist": Machine(Hist, quick=2000, thorough=20000, steps=(20, 30), params=hist_params),
+    "hist": Machine(Hist, quick=1600, thorough=16000, steps=(20, 30), params=hist_params),
 }
